@@ -3,6 +3,7 @@
 package yqlib
 
 import (
+	"errors"
 	"io"
 
 	"github.com/goccy/go-json"
@@ -10,6 +11,22 @@ import (
 
 type jsonDecoder struct {
 	decoder json.Decoder
+	input   *readErrorKeeper
+}
+
+// readErrorKeeper remembers an error of the underlying reader: the JSON library reports a failed read as the end of
+// the input, and a file that could not be read would pass for an empty one.
+type readErrorKeeper struct {
+	reader io.Reader
+	err    error
+}
+
+func (r *readErrorKeeper) Read(p []byte) (int, error) {
+	n, err := r.reader.Read(p)
+	if err != nil && !errors.Is(err, io.EOF) {
+		r.err = err
+	}
+	return n, err
 }
 
 func NewJSONDecoder() Decoder {
@@ -17,7 +34,8 @@ func NewJSONDecoder() Decoder {
 }
 
 func (dec *jsonDecoder) Init(reader io.Reader) error {
-	dec.decoder = *json.NewDecoder(reader)
+	dec.input = &readErrorKeeper{reader: reader}
+	dec.decoder = *json.NewDecoder(dec.input)
 	return nil
 }
 
@@ -25,6 +43,9 @@ func (dec *jsonDecoder) Decode() (*CandidateNode, error) {
 
 	var dataBucket CandidateNode
 	err := dec.decoder.Decode(&dataBucket)
+	if dec.input != nil && dec.input.err != nil {
+		return nil, dec.input.err
+	}
 	if err != nil {
 		return nil, err
 	}
